@@ -207,7 +207,13 @@ func (fr *frame) runDefers() {
 	}
 }
 
-func (m *Machine) lookupMethod(typ types.Type, meth *types.Func) *ssa.Function {
+func (m *Machine) lookupMethod(typ types.Type, meth *types.Func) (fn *ssa.Function) {
+	defer func() {
+		// go/ssa panics when the type has no such method (a stand-in value of the engine)
+		if r := recover(); r != nil {
+			unsupportedf("method %s of %s: %v", meth.Name(), typ, r)
+		}
+	}()
 	return m.P.prog.LookupMethod(typ, meth.Pkg(), meth.Name())
 }
 
